@@ -975,4 +975,185 @@ Proof.
   rewrite Hq, Hh in P, N. simpl in P, N. rewrite app_nil_r in P, N. auto.
 Qed.
 
+(** * liveness of Peek at the end of the stream / after a reset *)
+Lemma peekBody_end s1 n : RSInv S s1 -> RSInv2 s1 -> 0 < n -> remoteEffective s1 = false ->
+  fc_final s1 = true -> finalOffset s1 < rpos s1 + n ->
+  (forall x, rpos s1 <= x < finalOffset s1 -> x < rpos s1 + crest s1 \/ cov (queue (sorter s1)) x) ->
+  (crest s1 = 0 -> ~ cov (queue (sorter s1)) (rpos s1)) ->
+  exists d e, peekBody s1 n = (s1, d, e, false) /\ e <> EWouldBlock /\ (cancelledRemotely s1 = false -> e = EEOF).
+Proof.
+  intros R R2 Hn Hre Hf Hfin Hall Hnil. unfold peekBody.
+  pose proof (v_pos _ _ R) as P. pose proof (v_rp_high _ _ R) as Q. pose proof (crest_nonneg S _ R) as Hc.
+  pose proof (v_final _ _ R) as VF. rewrite Hf in VF.
+  destruct ((match cur s1 with [] => false | _ => true end) && (rpif s1 <? len (cur s1))) eqn:Ecur.
+  2:{ (* nothing unread in the current frame *)
+    assert (Hc0 : crest s1 = 0).
+    { apply andb_false_iff in Ecur. destruct Ecur as [E|E].
+      - unfold crest. destruct (cur s1); [reflexivity|discriminate].
+      - apply Z.ltb_ge in E. apply crest_zero with (S := S); auto. }
+    assert (Hend : curIsLast s1 || (finalOffset s1 <=? rpos s1) = true).
+    { destruct (curIsLast s1) eqn:El; auto. simpl. apply Z.leb_le.
+      destruct (Z.le_gt_cases (finalOffset s1) (rpos s1)); auto. exfalso.
+      destruct (Hall (rpos s1) ltac:(lia)) as [Hx|Hx]; [lia|]. exact (Hnil Hc0 Hx). }
+    rewrite Hend. exists [], EEOF. split; auto. split; [discriminate|auto]. }
+  apply andb_prop in Ecur as [E1 E2]. apply Z.ltb_lt in E2.
+  assert (Hne : cur s1 <> []) by (destruct (cur s1); [discriminate|congruence]).
+  pose proof (rest_slice S _ R Hne) as Hrest. pose proof (crest_nonnil _ Hne) as Hcr.
+  cbv zeta. rewrite Hrest. rewrite <- Hcr.
+  assert (Hcpos : 0 < crest s1) by lia.
+  destruct (Z.leb_spec n (crest s1)); [lia|].
+  destruct (Peek (sorter s1) (rpos s1 + crest s1) (n - crest s1)) as [d1|] eqn:EP1.
+  { exfalso. destruct (Peek_spec S _ _ _ _ (v_inv _ _ R) EP1 ltac:(lia)) as (_&Hcov1).
+    specialize (Hcov1 (finalOffset s1) ltac:(lia)). apply (v_below _ _ R) in Hcov1. lia. }
+  destruct (curIsLast s1) eqn:El.
+  { eexists; exists EEOF. split; [reflexivity|]. split; [discriminate|auto]. }
+  destruct (cancelledRemotely s1 && (reliableSize s1 <? rpos s1 + n)) eqn:Ecr.
+  { (* the reset's reliable size is reached first *)
+    apply andb_prop in Ecr as [Ec1 Ec2]. apply Z.ltb_lt in Ec2.
+    unfold remoteEffective in Hre. rewrite Ec1 in Hre. simpl in Hre. apply Z.leb_gt in Hre.
+    pose proof (w_rel _ R2) as WR.
+    destruct (Z.leb_spec (reliableSize s1 - rpos s1 - crest s1) 0).
+    - eexists; exists (cancel_rerr s1). split; [reflexivity|]. split; [apply cancel_rerr_not_block|intros; congruence].
+    - destruct (Peek_complete S (sorter s1) (reliableSize s1 - rpos s1 - crest s1) (v_inv _ _ R) ltac:(lia)) as (d3&Hd3).
+      { intros x Hx. rewrite P in Hx. destruct (Hall x ltac:(lia)); [lia|auto]. }
+      rewrite <- P. rewrite Hd3.
+      eexists; exists (cancel_rerr s1). split; [reflexivity|]. split; [apply cancel_rerr_not_block|intros; congruence]. }
+  destruct (Z.ltb_spec (finalOffset s1) (rpos s1 + n)); [|lia].
+  destruct (Z.leb_spec (finalOffset s1 - rpos s1 - crest s1) 0).
+  - eexists; exists EEOF. split; [reflexivity|]. split; [discriminate|auto].
+  - destruct (Peek_complete S (sorter s1) (finalOffset s1 - rpos s1 - crest s1) (v_inv _ _ R) ltac:(lia)) as (d3&Hd3).
+    { intros x Hx. rewrite P in Hx. destruct (Hall x ltac:(lia)); [lia|auto]. }
+    rewrite <- P. rewrite Hd3.
+    eexists; exists EEOF. split; [reflexivity|]. split; [discriminate|auto].
+Qed.
+
+(** Peek does not park when everything up to the final size is there and the request reaches
+    beyond it: it returns the rest with io.EOF (or, after a reset, the reliable part with the reset error) *)
+Theorem Peek_live_end s n s' d e bug : RSInv S s -> RSInv2 s -> 0 < n -> PeekS s n = (s', d, e, bug) ->
+  latched s = false -> fc_final s = true -> finalOffset s < rpos s + n ->
+  (forall x, rpos s <= x < finalOffset s -> x < rpos s + crest s \/ cov (queue (sorter s)) x) ->
+  e <> EWouldBlock /\ (cancelledRemotely s = false -> e = EEOF /\ rpos s + len d = finalOffset s).
+Proof.
+  intros R R2 Hn H Hl Hf Hfin Hall.
+  assert (Hn0 : 0 <= n) by lia.
+  destruct (Peek_spec_stream S _ _ _ _ _ _ R Hn0 H) as (_&_&_&_&_&_&Heof).
+  destruct (Peek_state S _ _ _ _ _ _ R H) as (_&_&_&_&Hfin').
+  assert (Hcore : e <> EWouldBlock /\ (cancelledRemotely s = false -> e = EEOF)).
+  { unfold PeekS in H. destruct (Z.leb_spec n 0); [lia|]. rewrite peekImpl_unfold in H.
+    destruct (curIsLast s && _); [inversion H; subst; split; [discriminate|auto]|].
+    unfold latched in Hl. apply orb_false_elim in Hl as [Hl Hre]. apply orb_false_elim in Hl as [Hsh Hcl].
+    rewrite Hcl, Hre, Hsh in H. cbn [orb] in H.
+    destruct ((match cur s with [] => true | _ => false end) || (len (cur s) <=? rpif s)) eqn:Edq.
+    - assert (Hc0 : crest s = 0).
+      { apply crest_zero with (S := S); auto. apply orb_prop in Edq. destruct Edq as [E|E]; [left; apply isnil_true; auto|right; apply Z.leb_le; auto]. }
+      destruct (dequeue s) as [s2 b2] eqn:Ed.
+      destruct (dequeue_spec S _ _ _ R Hc0 Ed) as (->&R1&D1&D2&D3&D4&D5&D6&D7&D8&D9&D10&D11&D12&D13&D14).
+      destruct (dequeue_more _ _ _ R Hc0 Ed) as (M1&_).
+      destruct (peekBody_end s2 n R1 (dequeue_RSInv2 _ _ _ R2 Ed) Hn) as (d2&e2&Hd2&He2&He3).
+      + unfold remoteEffective in *. rewrite D5, D6, D1. exact Hre.
+      + rewrite D9. exact Hf.
+      + rewrite D8, D1. exact Hfin.
+      + intros x Hx. rewrite D8, D1 in *. rewrite D3.
+        destruct (Z.lt_ge_cases x (rpos s + len (cur s2))); [left; auto|right].
+        destruct (Hall x Hx) as [Hy|Hy]; [lia|]. exact (dequeue_cov _ _ _ R Hc0 Ed x Hy H1).
+      + intros Hc2 Hcov. rewrite D3 in Hc2. rewrite D1 in Hcov. apply D14 in Hcov.
+        assert (Hne : cur s2 <> []) by (apply M1; auto). apply len_pos_nonnil in Hne. lia.
+      + rewrite Hd2 in H. inversion H; subst. split; auto. rewrite <- D5. auto.
+    - apply orb_false_elim in Edq. destruct Edq as [E1 E2]. apply isnil_false in E1. apply Z.leb_gt in E2.
+      destruct (peekBody_end s n R R2 Hn Hre Hf Hfin Hall) as (d2&e2&Hd2&He2&He3).
+      + intros Hc0. rewrite (crest_nonnil _ E1) in Hc0. lia.
+      + rewrite Hd2 in H. inversion H; subst. split; auto. }
+  destruct Hcore as (A&B). split; auto. intros Hcr. specialize (B Hcr). split; auto.
+  rewrite <- Hfin'. apply Heof. exact B.
+Qed.
+
+Theorem recv_peek_live_end w ops r n s' d e bug : 0 <= w < MaxBC -> Forall rvalid ops ->
+  rsrun S (rrun_init w) ops = Some r -> 0 < n -> PeekS (rr_st r) n = (s', d, e, bug) ->
+  latched (rr_st r) = false -> fc_final (rr_st r) = true -> finalOffset (rr_st r) < rpos (rr_st r) + n ->
+  (forall x, rpos (rr_st r) <= x < finalOffset (rr_st r) ->
+     x < rpos (rr_st r) + crest (rr_st r) \/ cov (queue (sorter (rr_st r))) x) ->
+  e <> EWouldBlock /\
+  (cancelledRemotely (rr_st r) = false -> e = EEOF /\ rpos (rr_st r) + len d = finalOffset (rr_st r)).
+Proof.
+  intros Hw Hv Hs Hn HP. destruct (reach_both w ops r Hw Hv Hs) as (R&R2). eapply Peek_live_end; eauto.
+Qed.
+
+Lemma peekBody_reset s1 n : RSInv S s1 -> 0 < n -> remoteEffective s1 = false -> cancelledRemotely s1 = true ->
+  reliableSize s1 < rpos s1 + n ->
+  (forall x, rpos s1 <= x < reliableSize s1 -> x < rpos s1 + crest s1 \/ cov (queue (sorter s1)) x) ->
+  (crest s1 = 0 -> ~ cov (queue (sorter s1)) (rpos s1)) ->
+  exists d e, peekBody s1 n = (s1, d, e, false) /\ e <> EWouldBlock.
+Proof.
+  intros R Hn Hre Hcr Hrel Hall Hnil. unfold peekBody.
+  pose proof (v_pos _ _ R) as P. pose proof (crest_nonneg S _ R) as Hc.
+  pose proof Hre as Hre'. unfold remoteEffective in Hre'. rewrite Hcr in Hre'. simpl in Hre'. apply Z.leb_gt in Hre'.
+  destruct ((match cur s1 with [] => false | _ => true end) && (rpif s1 <? len (cur s1))) eqn:Ecur.
+  2:{ exfalso. assert (Hc0 : crest s1 = 0).
+      { apply andb_false_iff in Ecur. destruct Ecur as [E|E].
+        - unfold crest. destruct (cur s1); [reflexivity|discriminate].
+        - apply Z.ltb_ge in E. apply crest_zero with (S := S); auto. }
+      destruct (Hall (rpos s1) ltac:(lia)) as [Hx|Hx]; [lia|]. exact (Hnil Hc0 Hx). }
+  apply andb_prop in Ecur as [E1 E2]. apply Z.ltb_lt in E2.
+  assert (Hne : cur s1 <> []) by (destruct (cur s1); [discriminate|congruence]).
+  pose proof (rest_slice S _ R Hne) as Hrest. pose proof (crest_nonnil _ Hne) as Hcrn.
+  cbv zeta. rewrite Hrest. rewrite <- Hcrn.
+  destruct (Z.leb_spec n (crest s1)).
+  { eexists; exists ENil. split; [reflexivity|discriminate]. }
+  destruct (Peek (sorter s1) (rpos s1 + crest s1) (n - crest s1)) as [d1|].
+  { eexists; exists ENil. split; [reflexivity|discriminate]. }
+  destruct (curIsLast s1).
+  { eexists; exists EEOF. split; [reflexivity|discriminate]. }
+  rewrite Hcr. destruct (Z.ltb_spec (reliableSize s1) (rpos s1 + n)); [|lia]. cbn [andb].
+  destruct (Z.leb_spec (reliableSize s1 - rpos s1 - crest s1) 0).
+  - eexists; exists (cancel_rerr s1). split; [reflexivity|apply cancel_rerr_not_block].
+  - destruct (Peek_complete S (sorter s1) (reliableSize s1 - rpos s1 - crest s1) (v_inv _ _ R) ltac:(lia)) as (d3&Hd3).
+    { intros x Hx. rewrite P in Hx. destruct (Hall x ltac:(lia)); [lia|auto]. }
+    rewrite <- P. rewrite Hd3.
+    eexists; exists (cancel_rerr s1). split; [reflexivity|apply cancel_rerr_not_block].
+Qed.
+
+(** after a reset, Peek does not park when everything below the reliable size is there and the
+    request reaches beyond it *)
+Theorem Peek_live_reset s n s' d e bug : RSInv S s -> 0 < n -> PeekS s n = (s', d, e, bug) ->
+  latched s = false -> cancelledRemotely s = true -> reliableSize s < rpos s + n ->
+  (forall x, rpos s <= x < reliableSize s -> x < rpos s + crest s \/ cov (queue (sorter s)) x) ->
+  e <> EWouldBlock.
+Proof.
+  intros R Hn H Hl Hcr Hrel Hall.
+  unfold PeekS in H. destruct (Z.leb_spec n 0); [lia|]. rewrite peekImpl_unfold in H.
+  destruct (curIsLast s && _); [inversion H; subst; discriminate|].
+  unfold latched in Hl. apply orb_false_elim in Hl as [Hl Hre]. apply orb_false_elim in Hl as [Hsh Hcl].
+  rewrite Hcl, Hre, Hsh in H. cbn [orb] in H.
+  destruct ((match cur s with [] => true | _ => false end) || (len (cur s) <=? rpif s)) eqn:Edq.
+  - assert (Hc0 : crest s = 0).
+    { apply crest_zero with (S := S); auto. apply orb_prop in Edq. destruct Edq as [E|E]; [left; apply isnil_true; auto|right; apply Z.leb_le; auto]. }
+    destruct (dequeue s) as [s2 b2] eqn:Ed.
+    destruct (dequeue_spec S _ _ _ R Hc0 Ed) as (->&R1&D1&D2&D3&D4&D5&D6&D7&D8&D9&D10&D11&D12&D13&D14).
+    destruct (dequeue_more _ _ _ R Hc0 Ed) as (M1&_).
+    destruct (peekBody_reset s2 n R1 Hn) as (d2&e2&Hd2&He2).
+    + unfold remoteEffective in *. rewrite D5, D6, D1. exact Hre.
+    + rewrite D5. exact Hcr.
+    + rewrite D6, D1. exact Hrel.
+    + intros x Hx. rewrite D6, D1 in *. rewrite D3.
+      destruct (Z.lt_ge_cases x (rpos s + len (cur s2))); [left; auto|right].
+      destruct (Hall x Hx) as [Hy|Hy]; [lia|]. exact (dequeue_cov _ _ _ R Hc0 Ed x Hy H1).
+    + intros Hc2 Hcov. rewrite D3 in Hc2. rewrite D1 in Hcov. apply D14 in Hcov.
+      assert (Hne : cur s2 <> []) by (apply M1; auto). apply len_pos_nonnil in Hne. lia.
+    + rewrite Hd2 in H. inversion H; subst. auto.
+  - apply orb_false_elim in Edq. destruct Edq as [E1 E2]. apply isnil_false in E1. apply Z.leb_gt in E2.
+    destruct (peekBody_reset s n R Hn Hre Hcr Hrel Hall) as (d2&e2&Hd2&He2).
+    + intros Hc0. rewrite (crest_nonnil _ E1) in Hc0. lia.
+    + rewrite Hd2 in H. inversion H; subst. auto.
+Qed.
+
+Theorem recv_peek_live_reset w ops r n s' d e bug : 0 <= w < MaxBC -> Forall rvalid ops ->
+  rsrun S (rrun_init w) ops = Some r -> 0 < n -> PeekS (rr_st r) n = (s', d, e, bug) ->
+  latched (rr_st r) = false -> cancelledRemotely (rr_st r) = true -> reliableSize (rr_st r) < rpos (rr_st r) + n ->
+  (forall x, rpos (rr_st r) <= x < reliableSize (rr_st r) ->
+     x < rpos (rr_st r) + crest (rr_st r) \/ cov (queue (sorter (rr_st r))) x) ->
+  e <> EWouldBlock.
+Proof.
+  intros Hw Hv Hs Hn HP. destruct (reach_both w ops r Hw Hv Hs) as (R&R2). eapply Peek_live_reset; eauto.
+Qed.
+
 End WithS.
